@@ -314,6 +314,24 @@ func AllUserActions() []*UserAction {
 				})
 			},
 			After: func(mon MonState) { mon["req.editPlan"] = "1" }},
+		{Name: "switchStyle", OneShot: true, // canary <-> blueGreen while no release is in progress (the validator freezes the style only while Progressing / Terminating)
+			Guard: func(w *World, sc *Scenario, mon MonState) bool {
+				ro := getRollout(w, sc)
+				return ro != nil && ro.Status.Phase == rolloutsv1beta1.RolloutPhaseHealthy && ro.DeletionTimestamp == nil
+			},
+			Do: func(w *World, sc *Scenario) error {
+				return updateRolloutSpec(w, sc, func(ro *rolloutsv1beta1.Rollout) {
+					st := &ro.Spec.Strategy
+					if st.BlueGreen != nil {
+						st.Canary = &rolloutsv1beta1.CanaryStrategy{Steps: st.BlueGreen.Steps, TrafficRoutings: st.BlueGreen.TrafficRoutings}
+						st.BlueGreen = nil
+					} else if st.Canary != nil {
+						st.BlueGreen = &rolloutsv1beta1.BlueGreenStrategy{Steps: st.Canary.Steps, TrafficRoutings: st.Canary.TrafficRoutings}
+						st.Canary = nil
+					}
+				})
+			},
+			After: func(mon MonState) { mon["req.editPlan"] = "1" }},
 		{Name: "deleteWorkload", OneShot: true,
 			Guard: func(w *World, sc *Scenario, mon MonState) bool {
 				return inProgress(getRollout(w, sc)) && getWorkload(w, sc) != nil
